@@ -8,7 +8,9 @@
  * virtual readings of the current request; every read is counted.
  *
  * Requests on stdin, one per line; one answer line per request on stdout:
- *   copen <path>                                   -> ok | err <kind> <errno> <detail|->
+ *   copen <path>                                   -> ok | ok leak <maps> <fds> | err <kind> <errno> <detail|->
+ *                                                     (after a successful open/close, eight more open/close cycles
+ *                                                      must not grow the process's mappings or descriptors)
  *   cnow <path> <real_s> <real_ns> <mono_s> <mono_ns>
  *                                                  -> ok <e_s> <e_ns> <l_s> <l_ns> <status>
  *                                                   | err <kind> <errno> <detail|->        (error of clockbound_now)
@@ -23,6 +25,7 @@
 #include <stddef.h>
 #include <time.h>
 #include <unistd.h>
+#include <fcntl.h>
 #include <sys/syscall.h>
 #include "clockbound.h"
 
@@ -36,6 +39,18 @@ int clock_gettime(clockid_t clk, struct timespec *ts)
 	if (virt_on && (clk == CLOCK_MONOTONIC_COARSE || clk == CLOCK_MONOTONIC)) { *ts = v_mono; reads_mono++; return 0; }
 	reads_other++;
 	return (int)syscall(SYS_clock_gettime, (long)clk, ts);
+}
+
+/* number of mappings and of open descriptors of this process */
+static void res_counts(long *maps, long *fds)
+{
+	char buf[4096]; size_t n; long lines = 0;
+	FILE *f = fopen("/proc/self/maps", "r");
+	if (f) { while ((n = fread(buf, 1, sizeof buf, f)) > 0) for (size_t i = 0; i < n; i++) if (buf[i] == '\n') lines++; fclose(f); }
+	*maps = lines;
+	long c = 0;
+	for (int fd = 0; fd < 1024; fd++) { if (fcntl(fd, F_GETFD) != -1) c++; }
+	*fds = c;
 }
 
 static const char *kind_name(clockbound_err_kind k, char *buf, size_t n)
@@ -76,7 +91,18 @@ int main(void)
 			if (ctx == NULL) { print_err("err", &err); }
 			else {
 				const clockbound_err *ce = clockbound_close(ctx);
-				if (ce != NULL) print_err("closeerr", ce); else printf("ok\n");
+				if (ce != NULL) { print_err("closeerr", ce); continue; }
+				/* "closes and deallocates": further open/close cycles leave the process's resources where they were */
+				long m0, f0, m1, f1; int bad = 0;
+				res_counts(&m0, &f0);
+				for (int k = 0; k < 8 && !bad; k++) {
+					clockbound_ctx *c2 = clockbound_open(path, &err);
+					if (c2 == NULL || clockbound_close(c2) != NULL) bad = 1;
+				}
+				res_counts(&m1, &f1);
+				if (bad) printf("ok reopen-failed\n");
+				else if (m1 - m0 >= 4 || f1 - f0 >= 4) printf("ok leak %ld %ld\n", m1 - m0, f1 - f0);
+				else printf("ok\n");
 			}
 		} else if (sscanf(line, "cnow %4095s %lld %lld %lld %lld", path, &rs, &rn, &ms, &mn) == 5) {
 			clockbound_err err; memset(&err, 0x5a, sizeof err);
